@@ -535,15 +535,90 @@ func c01RunPatch(ctx *Ctx, c c01PatchCase) {
 	}
 }
 
+// ---------------------------------------------------------------------------
+// stage 5: operators and functions applied to the element paths of generated resources
+
+type c01ResCase struct {
+	Res  string  `json:"res"`
+	Src  string  `json:"src"`
+	Opts c01Opts `json:"opts"`
+}
+
+var c01ResOps = []string{"=", "!=", "<", ">", "<=", ">=", "+", "-", "*", "/", "div", "mod", "&", "and", "or", "xor", "implies"}
+var c01ResFns0 = []string{"toString()", "toInteger()", "toDecimal()", "toBoolean()", "toDate()", "toDateTime()", "toTime()", "toQuantity()", "convertsToQuantity()", "convertsToDecimal()", "abs()", "ceiling()", "floor()", "round()", "sqrt()", "ln()", "exp()", "truncate()", "length()", "upper()", "toChars()", "not()", "distinct()", "isDistinct()", "children()", "descendants()", "first()", "last()", "tail()", "count()", "exists()", "empty()", "allTrue()", "anyFalse()", "value", "extension", "id"}
+
+func c01GenRes(s Src) c01ResCase {
+	res := genAnyResource(s, defaultGen)
+	typ := string(res.ProtoReflect().Descriptor().Name())
+	var paths []string
+	if root, _, err := buildTree(res); err == nil {
+		seen := map[string]bool{}
+		root.walk(func(n *Node) {
+			p := typ + "." + strings.Join(n.pathNames(), ".")
+			if !seen[p] {
+				seen[p] = true
+				paths = append(paths, p)
+			}
+		})
+	}
+	if len(paths) == 0 {
+		paths = []string{typ}
+	}
+	// keyword-named elements need the delimited spelling
+	pick := func() string {
+		p := pickOne(s, paths)
+		parts := strings.Split(p, ".")
+		for i := range parts {
+			parts[i] = fpIdent(parts[i])
+		}
+		return strings.Join(parts, ".")
+	}
+	a, b := pick(), pick()
+	var src string
+	switch s.Intn(6) {
+	case 0, 1:
+		src = a + " " + pickOne(s, c01ResOps) + " " + b
+	case 2:
+		src = a + "." + pickOne(s, c01ResFns0)
+	case 3:
+		src = a + "." + pickOne(s, []string{"intersect", "exclude", "where", "select", "all", "exists", "indexOf", "startsWith", "contains", "substring", "power", "log", "round", "skip", "take", "toQuantity", "extension", "join"}) + "(" + pickOne(s, []string{b, "$this = " + b, "1", "'x'", "$this", "{}"}) + ")"
+	case 4:
+		src = a + " " + pickOne(s, c01ResOps) + " " + pickOne(s, c01Terms)
+	default:
+		src = "-" + a + " is " + pickOne(s, progTypeNames) + " or (" + b + " as " + pickOne(s, progTypeNames) + ").exists()"
+	}
+	o := c01GenOpts(s)
+	o.Input = 4
+	return c01ResCase{Res: resToText(res), Src: src, Opts: o}
+}
+
+func c01RunRes(ctx *Ctx, c c01ResCase) {
+	pan, stack, compiled, evalErr := c01Exec(c.Src, c.Opts, c01Extras([]string{c.Res}))
+	cls := "outcome:value"
+	switch {
+	case pan != "":
+		cls = "outcome:panic"
+	case !compiled:
+		cls = "outcome:compile-error"
+	case evalErr:
+		cls = "outcome:eval-error"
+	}
+	ctx.Eval(c.Res+"|"+c.Src, compiled, cls)
+	if pan != "" {
+		ctx.Fail("total "+pan, fmt.Sprintf("%q on %s\n%s", c.Src, clip(c.Res, 400), clip(stack, 2500)))
+	}
+}
+
 func TestC01(t *testing.T) {
 	r := newRec("C01",
-		"four generators: (programs) typed-ish random expression trees over every operator and table function with boundary leaves, compiled under a random option set and evaluated on the fixture Patient / nil / empty / generated resources, results pushed through EvaluateAs* and Collection.To*; (fn-matrix) every table function × arity in [Min-1, Max+1] × boundary receiver × boundary arguments; (mutants) byte-mutated sources (1..8 edits incl. hostile tokens) of generated programs and of the repository's own test expressions; (patch) add/insert/delete/replace/move × tree paths and odd paths × right/sibling/wrong/nil values × boundary indexes × nil resource.  non-trivial = the source compiled and contains an operator or invocation (programs, fn-matrix), the mutant is non-blank (mutants), the resource is non-nil (patch); distinct = FNV-64 of (source/arguments, option set)",
+		"five generators: (resource-paths) operators, type tests and functions applied to pairs of element paths of a generated resource of any R4 type; (programs) typed-ish random expression trees over every operator and table function with boundary leaves, compiled under a random option set and evaluated on the fixture Patient / nil / empty / generated resources, results pushed through EvaluateAs* and Collection.To*; (fn-matrix) every table function × arity in [Min-1, Max+1] × boundary receiver × boundary arguments; (mutants) byte-mutated sources (1..8 edits incl. hostile tokens) of generated programs and of the repository's own test expressions; (patch) add/insert/delete/replace/move × tree paths and odd paths × right/sibling/wrong/nil values × boundary indexes × nil resource.  non-trivial = the source compiled and contains an operator or invocation (programs, fn-matrix), the mutant is non-blank (mutants), the resource is non-nil (patch); distinct = FNV-64 of (source/arguments, option set)",
 		"nil entries inside the input slice, nil option values and typed-nil elements are outside the domain", "a hang is a case still running after 30 s (observed cases take < 5 ms)")
 	runProperty(t, r,
 		Stage[c01FnCase]{Name: "fn-matrix", Gen: c01GenFn, Run: c01RunFn, N: pick(12000, 250000)},
 		Stage[c01ProgCase]{Name: "programs", Gen: c01GenProg, Run: c01RunProg, N: pick(8000, 200000)},
 		Stage[c01MutCase]{Name: "mutants", Gen: c01GenMut, Run: c01RunMut, N: pick(6000, 150000)},
 		Stage[c01PatchCase]{Name: "patch", Gen: c01GenPatch, Run: c01RunPatch, N: pick(3000, 80000)},
+		Stage[c01ResCase]{Name: "resource-paths", Gen: c01GenRes, Run: c01RunRes, N: pick(5000, 120000)},
 	)
 }
 
